@@ -57,8 +57,8 @@ def mk(links):
     p.add_argument("--cfg", action="config")
     p.add_argument("--a", type=int, default=1)
     p.add_argument("--b", type=int, default=2)
-    p.add_argument("--c", type=int)
-    p.add_argument("--d", type=int, required=True)
+    p.add_argument("--c", "-c", "--c-alt", type=int)  # a target may have several spellings: every one of them is the target's option
+    p.add_argument("--d", "--dee", type=int, required=True)
     p.add_class_arguments(F.LGrp, "g")
     p.add_argument("--s", type=F.LSub, default={"class_path": FX + "LSub"})
     p.add_argument("--ls", type=List[F.LSub], default=[])
@@ -100,6 +100,7 @@ def case_strategy():
         cls_late = draw(st.booleans())  # the class of --s is changed after its init_args were touched
         return {"links": links, "puts": puts, "cls": cls, "ls": ls, "supplied": supplied, "cls_late": cls_late,
                 "sub": draw(st.integers(0, 2)) == 0,  # the linked parser is attached as a subcommand of a root parser
+                "deep": draw(st.booleans()),  # ... two levels down, below a parser without links
                 "channel": draw(st.sampled_from(["argv", "argv", "object", "string"]))}
 
     return st.composite(lambda draw: build(draw))()
@@ -157,7 +158,9 @@ def run_case(ctx, case):
                 "ls.n": {"ls": [{"class_path": FX + c, "init_args": ({"n": 77} if c != "LSub3" else {})} for c in case["ls"]]}}[t]
         if how == "option":
             if t in ("c", "d"):
-                option_on_plain_target = f"--{t}=77"
+                spell = {"c": ["--c=77", "-c=77", "--c-alt=77", "-c 77"], "d": ["--d=77", "--dee=77", "--dee 77"]}[t]
+                option_on_plain_target = spell[(len(case["puts"]) + len(case["ls"]) + sum(x[2] for x in case["puts"])) % len(spell)]  # (a pure function of the case)
+                ctx.cls("target-option-spelling:" + option_on_plain_target.split("=")[0].split(" ")[0])
             elif t in ("g.w", "g.v"):
                 option_on_plain_target = f"--{t}=77"
             elif t == "s.n":
@@ -184,7 +187,7 @@ def run_case(ctx, case):
         # the option of a plain-argument target is rejected
         if option_on_plain_target:
             try:
-                p.parse_args(args + [option_on_plain_target])
+                p.parse_args(args + option_on_plain_target.split(" "))
                 ctx.finding("C15/option-of-a-link-target-accepted", {"option": option_on_plain_target, "links": links})
             except ArgumentError:
                 ctx.cls("option-of-target-rejected")
@@ -199,7 +202,15 @@ def run_case(ctx, case):
 
             root = ArgumentParser(exit_on_error=False, prog="app", env_prefix="APP", default_env=False)
             root.add_argument("--top", type=int, default=0)
-            root.add_subcommands(required=True).add_subcommand("fit", p)
+            if case.get("deep"):
+                # two levels: only the leaf has links, the parser in between has none
+                mid = ArgumentParser(exit_on_error=False)
+                mid.add_argument("--mid", type=int, default=0)
+                root.add_subcommands(required=True).add_subcommand("run", mid)
+                mid.add_subcommands(required=True).add_subcommand("fit", p)
+                ctx.cls("as-nested-subcommand:" + channel)
+            else:
+                root.add_subcommands(required=True).add_subcommand("fit", p)
             ctx.cls("as-subcommand:" + channel)
         try:
             if channel != "argv":
@@ -227,14 +238,17 @@ def run_case(ctx, case):
                             cur = cur.setdefault(q, {})
                         cur[parts[-1]] = v
                 if root is not None:
-                    cfg_root = root.parse_object({"subcommand": "fit", "fit": obj}) if channel == "object" else root.parse_string(json.dumps({"subcommand": "fit", "fit": obj}))
-                    cfg = cfg_root.fit
+                    robj = {"subcommand": "fit", "fit": obj}
+                    if case.get("deep"):
+                        robj = {"subcommand": "run", "run": robj}
+                    cfg_root = root.parse_object(robj) if channel == "object" else root.parse_string(json.dumps(robj))
+                    cfg = cfg_root.run.fit if case.get("deep") else cfg_root.fit
                 else:
                     cfg = mk(links).parse_object(obj) if channel == "object" else mk(links).parse_string(json.dumps(obj))
             elif root is not None:
                 extra = [f"--{k}={json.dumps(v)}" for k, how, v in case["puts"] if how == "env"]
-                cfg_root = root.parse_args(["fit"] + args + extra)
-                cfg = cfg_root.fit
+                cfg_root = root.parse_args((["run"] if case.get("deep") else []) + ["fit"] + args + extra)
+                cfg = cfg_root.run.fit if case.get("deep") else cfg_root.fit
             else:
                 cfg = p.parse_args(args)
         except ArgumentError as ex:
@@ -280,7 +294,8 @@ def run_case(ctx, case):
             continue
         if fmt == "json":
             dd = json.loads(d)
-            dd = dd.get("fit", {}) if root is not None else dd
+            if root is not None:
+                dd = (dd.get("run", {}) if case.get("deep") else dd).get("fit", {})
             for l in links:
                 for key in TARGET_KEYS[l]:
                     cur, present = dd, True
@@ -300,7 +315,13 @@ def run_case(ctx, case):
 
                 root2 = ArgumentParser(exit_on_error=False, prog="app", env_prefix="APP", default_env=False)
                 root2.add_argument("--top", type=int, default=0)
-                root2.add_subcommands(required=True).add_subcommand("fit", mk(links))
+                if case.get("deep"):
+                    mid2 = ArgumentParser(exit_on_error=False)
+                    mid2.add_argument("--mid", type=int, default=0)
+                    root2.add_subcommands(required=True).add_subcommand("run", mid2)
+                    mid2.add_subcommands(required=True).add_subcommand("fit", mk(links))
+                else:
+                    root2.add_subcommands(required=True).add_subcommand("fit", mk(links))
                 c2 = root2.parse_string(d)
             else:
                 c2 = mk(links).parse_string(d)
@@ -310,6 +331,7 @@ def run_case(ctx, case):
         ca, cb = _rt.clean(c2), _rt.clean(whole)
         for c_ in (ca, cb):
             c_.pop("fit.cfg", None)
+            c_.pop("run.fit.cfg", None)
         df = [x for x in G.diff(ca, cb, limit=6) if not x[0].endswith("<key order>")]  # where a reconstructed target lands in the key order is not a value
         if df:
             ctx.finding(f"C15/re-parsed-dump-differs/{fmt}", {"diff": short(df, 300), "dump": short(d, 300)})
